@@ -17,6 +17,7 @@ func init() {
 			"(R-C17-KEYS) keyEvict += 1 exactly on the paths of sampledLFU.del that delete the key; keyAdd += 1 exactly once on every applier path on which the policy admitted a new key (independent of store.Set's verdict) and never elsewhere; " +
 			"(R-C17-HITMISS) past the guard every path of Get counts exactly one of hit/miss, chosen by the found result of storedItems.Get, under the key hash; " +
 			"(R-C17-DROPS) SetWithTTL counts dropSets exactly on the paths where the send was not taken and Update did not store, all of which return false; Push counts exactly one of keepGets/dropGets by len(keys) according to the select arm taken; " +
+			"(R-C17-BATCH) a batch of recorded Gets is offered to the policy once: the ring stripe starts over after every hand-over attempt, so GetsKept+GetsDropped cannot exceed the Gets recorded (rule shared with C08); " +
 			"(R-C17-CLEAR) Metrics.Clear atomically zeroes every cell of every metric and Cache.Clear calls it when metrics are on; " +
 			"(R-C17-CELLS) add and get address the same per-type array and get sums all its cells. " +
 			"NOT decided: the equalities at quiescent points (they follow from the per-step pairing only together with C13).",
@@ -37,9 +38,10 @@ func runC17(c *Ctx) {
 	L, P := c.L, c.P
 	L.Rule("R-C17-SITES", "Metrics.add call sites are exactly the tabled (function, metric) pairs", 1)
 	L.Rule("R-C17-COST", "Δused ≡ ΔcostAdd − ΔcostEvict on every path of every mutator; evict.add paired with costAdd", 8)
-	L.Rule("R-C17-KEYS", "keyEvict ↔ key deleted from keyCosts; keyAdd ↔ policy admitted a new key", 2)
+	L.Rule("R-C17-KEYS", "keyEvict ↔ key deleted from keyCosts; keyAdd ↔ policy admitted a new key; applier arms call only their own policy operation", 5)
 	L.Rule("R-C17-HITMISS", "exactly one of hit/miss per Get past the guard, chosen by store.Get's found", 1)
 	L.Rule("R-C17-DROPS", "dropSets exactly on dropped new-key sets; keepGets/dropGets exactly one per batch by arm", 2)
+	L.Rule("R-C17-BATCH", "each recorded Get is offered to the policy at most once: the stripe starts over after every hand-over attempt (rule shared with C08)", 3)
 	L.Rule("R-C17-CLEAR", "Metrics.Clear zeroes every cell of every metric atomically; Cache.Clear calls it", 2)
 	L.Rule("R-C17-CELLS", "add/get address the same array; get sums all cells", 1)
 
@@ -257,6 +259,10 @@ func runC17(c *Ctx) {
 		}
 	})
 
+	// ---- R-C17-BATCH
+	ringRule(c, "R-C17-BATCH")
+	applierArmsRule(c, "R-C17-KEYS")
+
 	// ---- R-C17-DROPS
 	c.Group("R-C17-DROPS", "Cache.SetWithTTL#dropSets", func() {
 		fn := P.Fn("ristretto", "Cache", "SetWithTTL")
@@ -375,7 +381,7 @@ func runC17(c *Ctx) {
 	c.Group("R-C17-CLEAR", "Cache.Clear", func() {
 		sub := &Ctx{L: newLedger("C17"), P: P, Tier: c.Tier}
 		sub.L.P = P
-		clearResetRule(sub, "R-C17-CLEAR")
+		clearResetParts(sub, "R-C17-CLEAR", "cache", "metrics", "evict")
 		for _, o := range sub.L.Obls {
 			if strings.Contains(o.Construct, "Metrics.Clear") || o.Outcome != OK {
 				L.add(o)
